@@ -516,6 +516,11 @@ func H_C05_every_kind_and_multi_delete() {
 		m = mDelete(m, 0)
 	}
 	n := len(m)
+	// the variadic mutators with no argument at all (also from an empty slice) change nothing
+	var none []int
+	r0, r1, r2 := l.Delete(), l.Delete(none...), l.Add()
+	verifAssert(r0 == l && r1 == l && r2 == l, "Delete returns the list")
+	verifAssert(hSameSlots(mval{elem: m}, hSnapList(l, false)), "Delete and Add without arguments leave the list as it was")
 	sl := l.Slice()
 	ok := len(sl) == n
 	for i := 0; i < n && i < len(sl); i++ {
